@@ -172,6 +172,17 @@ class Facts:
     def resolve_call(self, fi: FunctionInfo, call: ast.Call):
         return self.resolve_in(fi, call.func)
 
+    def ext_name_of(self, fi: FunctionInfo, expr: ast.AST) -> Optional[str]:
+        """Fully qualified external name ('numpy.savez', 'builtins.len') of a callee expression, if it resolves to one."""
+        r = self.resolve_in(fi, expr)
+        if isinstance(r, External):
+            n = r.name
+            for pre in ("numpy.core.", "numpy._core."):
+                if n.startswith(pre):
+                    n = "numpy." + n[len(pre):].split(".", 1)[-1]
+            return n
+        return None
+
     def constructor_of(self, target) -> Optional[FunctionInfo]:
         if isinstance(target, ClassInfo):
             return target.lookup_method("__init__")
